@@ -59,6 +59,11 @@ PROPS = {
                          'axioms (C14_expectation only, through Reals and Coquelicot): ClassicalDedekindReals.sig_forall_dec, FunctionalExtensionality.functional_extensionality_dep',
                          'harness/c14.py: recording generator proxy, exact dyadic conversion of the float relative weights and draws, dont-care band 1e-12 around the threshold',
                          'modelled not verified: numpy Generator.random being uniform on [0,1) (the redraw ensemble supports it at 6.2 sigma per sample)']),
+    'C07': dict(module='c07', pfile='P_C07',
+                required=['C07_ell_sample', 'C07_chol_frame', 'C07_mvee_enclose', 'C07_union_sample', 'C07_mixture', 'C07_neural_sub', 'C07_nautilus_sub', 'C07_nautilus_sample', 'C07_split_keeps', 'C07_trim_keeps', 'C07_covered_contained'],
+                trusted=[KERNEL, 'model evaluated inside Coq by vm_compute on generated cases_C07.v (exact rationals)', 'mathcomp 1.15 (ssreflect, algebra) for the matrix theorems; no axioms',
+                         'harness/c07.py: exact dyadic conversion of the implementation matrices, dont-care band 1e-9 around the surface',
+                         'modelled not verified: floating-point rounding inside numpy/LAPACK (Cholesky, inverse, einsum), the Khachiyan iteration (its output is checked: rescaled quadratic forms of the construction points), MLPRegressor scores (oracle bits)']),
 }
 
 
